@@ -87,7 +87,12 @@ func c03Text(w *core.W, s string, kind string) {
 		return
 	}
 	if s == "" || perr == model.ErrBadDDD {
-		return // not a name / a spelling outside the library's presentation form: only the no-panic monitor applies
+		// not a name / a spelling outside the library's presentation form (\256..\999): what such a
+		// spelling denotes is not defined, but the two judges of the statement still have to agree
+		if s != "" && fqdnShape(s) && ok != (err == nil) {
+			w.Violation("C03/IsDomainName-and-PackDomainName-disagree/"+kind, fmt.Sprintf("IsDomainName(%q)=%v, PackDomainName: %v", s, ok, err), wit)
+		}
+		return
 	}
 	if !fqdnShape(s) {
 		if err == nil {
